@@ -39,7 +39,7 @@ func (c *Check) stateEntryApproval(rule string) {
 	allInstrs(fn, func(in ssa.Instruction) {
 		if s, ok := in.(*ssa.Select); ok && s.Blocking && rdv == nil {
 			for _, ss := range s.States {
-				if ss.Send != nil && chanFieldName(ss.Chan) == "transitionCh" {
+				if ss.Send != nil && typeKey(ss.Chan.Type()) == "chan stateTransition" {
 					rdv = s
 				}
 			}
@@ -98,7 +98,7 @@ func (c *Check) stateEntryApproval(rule string) {
 			if sel, ok := v.Tuple.(*ssa.Select); ok {
 				for i, ss := range sel.States {
 					_ = i
-					if ss.Send == nil && chanFieldName(ss.Chan) == "transitionCh" {
+					if ss.Send == nil && typeKey(ss.Chan.Type()) == "chan stateTransition" {
 						kind = "echo"
 					}
 				}
